@@ -100,3 +100,119 @@ pub fn generate() -> String {
     }
     out
 }
+
+/// Golden check: objects serialised by the *pinned* tree are read by the current tree and used.
+/// Returns (number of checks, failures, model lines to decode the same bytes with the wire model).
+pub fn check(path: &str) -> (usize, Vec<String>, Vec<String>) {
+    use cosmian_cover_crypt::{CleartextHeader, MasterPublicKey, MasterSecretKey, UserSecretKey, XEnc};
+    use crate::util::unhex;
+    use std::collections::HashMap;
+    let txt = std::fs::read_to_string(path).expect("golden corpus missing");
+    let mut rows: HashMap<String, Vec<String>> = HashMap::new();
+    let mut order = vec![];
+    for l in txt.lines() {
+        let t: Vec<String> = l.split(' ').map(|s| s.to_string()).collect();
+        order.push(t[0].clone());
+        rows.insert(t[0].clone(), t[1..].to_vec());
+    }
+    let cc = Covercrypt::default();
+    let mut checks = 0;
+    let mut fails = vec![];
+    let mut mlines = vec![];
+    let cfg = crate::util::CFG;
+    let mut chk = |ok: bool, what: String| {
+        checks += 1;
+        if !ok {
+            fails.push(what);
+        }
+    };
+    let b = |name: &str, k: usize| unhex(&rows[name][k]).unwrap();
+    // every object deserialises
+    for name in &order {
+        let bytes = b(name, 0);
+        let (ty, ok) = if name.ends_with(".msk") {
+            ("msk", MasterSecretKey::deserialize(&bytes).is_ok())
+        } else if name.contains(".mpk") {
+            ("mpk", MasterPublicKey::deserialize(&bytes).is_ok())
+        } else if name.contains(".usk") {
+            ("usk", UserSecretKey::deserialize(&bytes).is_ok())
+        } else if name.contains(".enc") {
+            ("enc", XEnc::deserialize(&bytes).is_ok())
+        } else if name.contains(".hdr") {
+            ("hdr", EncryptedHeader::deserialize(&bytes).is_ok())
+        } else if name.contains(".clr") {
+            ("clr", CleartextHeader::deserialize(&bytes).is_ok())
+        } else {
+            ("struct", cosmian_cover_crypt::AccessStructure::deserialize(&bytes).is_ok())
+        };
+        chk(ok, format!("{name}: object serialised by the pinned release no longer deserialises"));
+        mlines.push(format!("wire {ty} {cfg} x{}", hex(&bytes)));
+    }
+    // ... and they still work
+    let mut msk = MasterSecretKey::deserialize(&b("h.msk", 0)).unwrap();
+    let mpk2 = MasterPublicKey::deserialize(&b("h.mpk2", 0)).unwrap();
+    let mut usks: Vec<UserSecretKey> = (0..5).map(|i| UserSecretKey::deserialize(&b(&format!("h.usk{i}"), 0)).unwrap()).collect();
+    for i in 0..10 {
+        let name = format!("h.enc{i}");
+        let enc = XEnc::deserialize(&b(&name, 0)).unwrap();
+        let secret = b(&name, 1);
+        let openers = &rows[&name][3];
+        for j in openers.split(',').filter(|s| !s.is_empty() && *s != "-") {
+            let j: usize = j.parse().unwrap();
+            let r = cc.decaps(&usks[j], &enc).ok().flatten();
+            chk(r.as_ref().map(|s| s.to_vec()) == Some(secret.clone()), format!("{name}: key {j} opened it on the pinned release and no longer recovers the same secret"));
+        }
+    }
+    // empty structure
+    {
+        let m0 = MasterSecretKey::deserialize(&b("empty.msk", 0)).unwrap();
+        let k0 = MasterPublicKey::deserialize(&b("empty.mpk", 0)).unwrap();
+        let e0 = XEnc::deserialize(&b("empty.enc", 0)).unwrap();
+        let mut m0 = m0;
+        let u = cc.generate_user_secret_key(&mut m0, &ap("*"));
+        chk(u.is_ok(), "empty.msk: cannot generate a broadcast key".into());
+        if let Ok(u) = u {
+            let r = cc.decaps(&u, &e0).ok().flatten();
+            chk(r.map(|s| s.to_vec()) == Some(b("empty.enc", 1)), "empty.enc: broadcast key of the deserialised master key does not open it".into());
+            let (s, x) = cc.encaps(&k0, &ap("*")).unwrap();
+            chk(cc.decaps(&u, &x).ok().flatten() == Some(s), "empty.mpk: encapsulation under the deserialised public key is not opened".into());
+        }
+    }
+    // refresh every key with the deserialised master key, both flags
+    for (j, u) in usks.iter_mut().enumerate() {
+        for keep in [true, false] {
+            let mut u2 = u.clone();
+            chk(cc.refresh_usk(&mut msk, &mut u2, keep).is_ok(), format!("h.usk{j}: refresh (keep={keep}) with the deserialised master key fails"));
+            if !keep {
+                *u = u2;
+            }
+        }
+    }
+    // fresh encapsulation under the old public key, opened by the refreshed broadcast key
+    let (s, x) = cc.encaps(&mpk2, &ap("DPT::HR && SEC::LOW")).unwrap();
+    chk(cc.decaps(&usks[2], &x).ok().flatten() == Some(s), "h.mpk2: encapsulation under the deserialised public key is not opened by the refreshed '*' key".into());
+    // the master key still derives a working public key, updates and rekeys
+    chk(cc.update_msk(&mut msk).is_ok(), "h.msk: update fails".into());
+    chk(cc.rekey(&mut msk, &ap("DPT::FIN")).is_ok(), "h.msk: rekey fails".into());
+    // headers
+    let star_old = UserSecretKey::deserialize(&b("h.usk2", 0)).unwrap();
+    for i in 0..3 {
+        let hname = format!("h.hdr{i}");
+        let hd = EncryptedHeader::deserialize(&b(&hname, 0)).unwrap();
+        let ad = &rows[&hname][3];
+        let ad = if ad == "-" { None } else { Some(unhex(ad).unwrap()) };
+        let md = &rows[&hname][2];
+        let md = if md == "-" { None } else { Some(unhex(md).unwrap()) };
+        let r = hd.decrypt(&cc, &star_old, ad.as_deref());
+        match r {
+            Ok(Some(c)) => {
+                chk(c.secret.to_vec() == b(&hname, 1), format!("{hname}: secret differs"));
+                chk(c.metadata == md, format!("{hname}: metadata differs"));
+                let clr = CleartextHeader::deserialize(&b(&format!("h.clr{i}"), 0)).unwrap();
+                chk(clr == c, format!("h.clr{i}: cleartext header differs from the decrypted one"));
+            }
+            _ => chk(false, format!("{hname}: does not decrypt any more")),
+        }
+    }
+    (checks, fails, mlines)
+}
